@@ -1,0 +1,21 @@
+//go:build verif
+// +build verif
+
+package pbft
+
+import "time"
+
+// Access to the REAL timeoutTicker for the model-based checks in /verif (timeoutInfo is unexported).
+
+// VerifTickerSchedule sends a tick to the ticker as scheduleTimeout does.
+func VerifTickerSchedule(t TimeoutTicker, v VerifTimeout) { t.ScheduleTimeout(v.info()) }
+
+// VerifTickerTock waits up to `wait` for a tock.
+func VerifTickerTock(t TimeoutTicker, wait time.Duration) (VerifTimeout, bool) {
+	select {
+	case ti := <-t.Chan():
+		return verifTimeout(ti), true
+	case <-time.After(wait):
+		return VerifTimeout{}, false
+	}
+}
